@@ -430,9 +430,10 @@ pub trait PartDyn: Sync {
     fn name(&self) -> &'static str;
     fn run(&self, rep: &mut Report);
     fn replay(&self, case: &Value) -> Result<Outcome, String>;
-    /// Coverage-guided entry: the fuzzer's bytes are the random stream of the part's proptest
-    /// strategy (proptest's PassThrough RNG), so the same generator and the same oracle are used.
-    /// Returns the rendered case and the failure, if the oracle rejected it.
+    /// Coverage-guided entry: the fuzzer's bytes are decoded into the part's case type by a
+    /// structure-preserving serde decoder (bytede.rs), mapped into the generator's domain by the
+    /// part's `fuzz` sanitizer, and judged by the same oracle. Returns the rendered case and the
+    /// failure, if the oracle rejected it.
     fn fuzz_bytes(&self, data: &[u8]) -> Option<(Value, Failure)>;
     /// Like `fuzz_bytes`, then shrink with the harness's shrinker and save a replay file.
     fn fuzz_to_replay(&self, data: &[u8], rep: &Report) -> Option<(PathBuf, Failure)>;
@@ -451,6 +452,9 @@ pub struct Part<C: 'static> {
     pub shrink_budget: usize,
     /// how many times a failing (non-hang) case must reproduce out of `confirm_runs` re-runs
     pub confirm_runs: usize,
+    /// libFuzzer entry: maps a case decoded from raw bytes (bytede.rs) into the generator's domain;
+    /// None = the part is not fuzzed
+    pub fuzz: Option<fn(C) -> C>,
 }
 
 #[derive(Serialize, Deserialize)]
@@ -591,32 +595,52 @@ where
     }
 
     fn fuzz_bytes(&self, data: &[u8]) -> Option<(Value, Failure)> {
-        let cfg = Config {
-            failure_persistence: None,
-            ..Config::default()
-        };
-        let mut runner = TestRunner::new_with_rng(cfg, TestRng::from_seed(RngAlgorithm::PassThrough, data));
-        let strat = (self.strategy)(Tier::Thorough);
-        let tree = strat.new_tree(&mut runner).ok()?;
-        let case = tree.current();
+        let sanitize = self.fuzz?;
+        let case: C = crate::bytede::from_bytes(data).ok()?;
+        let case = sanitize(case);
         let out = (self.exec)(&case);
         out.fail.map(|f| (render(&case), f))
     }
 
     fn fuzz_to_replay(&self, data: &[u8], rep: &Report) -> Option<(PathBuf, Failure)> {
-        let cfg = Config {
-            failure_persistence: None,
-            ..Config::default()
-        };
-        let mut runner = TestRunner::new_with_rng(cfg, TestRng::from_seed(RngAlgorithm::PassThrough, data));
-        let strat = (self.strategy)(Tier::Thorough);
-        let mut tree = strat.new_tree(&mut runner).ok()?;
-        let case = tree.current();
+        let sanitize = self.fuzz?;
+        let case: C = crate::bytede::from_bytes(data).ok()?;
+        let case = sanitize(case);
         let out = (self.exec)(&case);
         let f = out.fail?;
-        let (min_case, min_fail, _) = self.shrink(&mut *tree, &f);
-        let path = self.save_replay(rep, &min_case, &min_fail, -1_000_000);
-        Some((path, min_fail))
+        // minimise by deleting chunks of the input (the decoder is total), keeping the signature
+        let mut best = data.to_vec();
+        let mut best_case = case;
+        let mut best_fail = f.clone();
+        let mut budget = self.shrink_budget.max(200);
+        let mut cut = best.len() / 2;
+        while cut >= 1 && budget > 0 {
+            let mut progressed = false;
+            let mut i = 0;
+            while i + cut <= best.len() && budget > 0 {
+                budget -= 1;
+                let mut cand = best.clone();
+                cand.drain(i..i + cut);
+                let c2: Option<C> = crate::bytede::from_bytes(&cand).ok().map(sanitize);
+                if let Some(c2) = c2 {
+                    if let Some(f2) = (self.exec)(&c2).fail {
+                        if f2.sig == f.sig {
+                            best = cand;
+                            best_case = c2;
+                            best_fail = f2;
+                            progressed = true;
+                            continue;
+                        }
+                    }
+                }
+                i += cut;
+            }
+            if !progressed {
+                cut /= 2;
+            }
+        }
+        let path = self.save_replay(rep, &best_case, &best_fail, -1_000_000);
+        Some((path, best_fail))
     }
 
     fn run(&self, rep: &mut Report) {
